@@ -151,7 +151,7 @@ CLAIMS.update({
  'C12': dict(
     text='Proof (Coq), partial + correspondence. Engine-level theorems for RDF-star-free rule tables: a rule\'s statements depend on the rest of the table only through the parent rule it names '
          '(rule_depends_only_on_its_references_partial); a table made of two reference-closed parts yields the union of their results and fails iff one fails (document_is_union_of_parts_partial); renumbering the rules '
-         'and rewriting parent references changes nothing (rule_numbering_is_irrelevant_partial). Document level: for plain documents Spec(d1 ++ d2) = Spec(d1) U Spec(d2) and the engine's result is the union of its results (plain_document_means_the_union_of_its_parts, engine_on_a_plain_document_is_the_union_over_its_parts); for EVERY document the order of the triples maps is irrelevant and every statement of a part is a statement of the whole (triples_map_order_is_irrelevant, every_part_is_included_in_the_whole_partial, Proofs/DocOrderP.v; the converse for closed parts of arbitrary nesting needs an acyclic reference graph and is not proved). Correspondence: every document against every dependency-closed layout over files and sections, reordering, '
+         'and rewriting parent references changes nothing (rule_numbering_is_irrelevant_partial). Document level: for plain documents Spec(d1 ++ d2) = Spec(d1) U Spec(d2) and the result of the engine is the union of its results (plain_document_means_the_union_of_its_parts, engine_on_a_plain_document_is_the_union_over_its_parts); for EVERY document the order of the triples maps is irrelevant and every statement of a part is a statement of the whole (triples_map_order_is_irrelevant, every_part_is_included_in_the_whole_partial, Proofs/DocOrderP.v; the converse for closed parts of arbitrary nesting needs an acyclic reference graph and is not proved). Correspondence: every document against every dependency-closed layout over files and sections, reordering, '
          'the union of components run alone, and the rejection of an identifier repeated across sections.',
     note='Partial: quoted maps, rdflib graph merging and validate_mappings are decided by the correspondence only. Genuine defect repaired (fix: c61aea7).',
     technique='Coq proof (union over closed parts, renaming invariance) + differential check over document layouts', ref='0.3 C12'),
